@@ -286,7 +286,12 @@ def concrete_history(p, seed, steps=200):
                             for key in p.s_sensors():
                                 rd = ekf.make_reading(key, **{r: 0.1 * k for r in p.sensors[key]})
                                 st, cov = ekf.sensor_model(st, cov, sensor_key=key, sensor_reading=rd)
-                    except (AssertionError, np.linalg.LinAlgError) as ex:
+                    except Exception as ex:
+                        import traceback as _tb
+
+                        frames = _tb.extract_tb(ex.__traceback__)
+                        if not isinstance(ex, (AssertionError, np.linalg.LinAlgError)) and not (frames and "formak" in frames[-1].filename):
+                            raise  # not raised by the code under test
                         out.update({"raised": True, "dt": dt, "noise_scale": noise_scale, "step": k + 1, "with_sensor": with_sensor, "message": (type(ex).__name__ + ": " + str(ex)).replace("\n", " ")[:200], "cov_norm": float(np.linalg.norm(cov.data))})
                         return out
                     out["steps_run"] += 1
@@ -408,7 +413,7 @@ def run(tier, seed):
         tasks.append((task_update_lemma, (n, m, tier, seed)))
     for n in (1, 2, 3, 4):
         tasks.append((task_gate, (n, tier, seed)))
-    for p in [CP.P2(), CP.P1(), CP.P13(), CP.P16(), CP.P17()] + ([] if tier == "quick" else [CP.P8(), CP.P19(), CP.P20()]):
+    for p in [CP.P2(), CP.P1(), CP.P13(), CP.P16(), CP.P17(), CP.P26()] + ([] if tier == "quick" else [CP.P8(), CP.P19(), CP.P20()]):
         tasks.append((task_history, (p, tier, seed)))
     for p in [CP.P13(), CP.P2()] + ([] if tier == "quick" else [CP.P3(), CP.P8()]):
         tasks.append((task_cpp_symmetry, (p, tier, seed)))
